@@ -51,3 +51,23 @@ static std::string op_stc(const Toks &t) {
     return "UNSUPPORTED";
 }
 static Reg r_stc("STC", op_stc);
+
+// PERMN <12|8|6> <state40>: the ascon_permute12/8/6 macros; VER: ascon_suite_version() against the header's macro
+extern "C" { int ascon_suite_version(void); }
+static std::string op_permn(const Toks &t) {
+    std::vector<unsigned char> in = unhex(t[2]);
+    ascon_state_t st; unsigned char out[40];
+    ascon_init(&st);
+    ascon_overwrite_bytes(&st, in.data(), 0, 40);
+    if (t[1] == "12") ascon_permute12(&st); else if (t[1] == "8") ascon_permute8(&st); else if (t[1] == "6") ascon_permute6(&st); else { ascon_free(&st); return "UNSUPPORTED"; }
+    ascon_extract_bytes(&st, out, 0, 40);
+    ascon_free(&st);
+    return hex(out, 40);
+}
+static Reg r_permn("PERMN", op_permn);
+static std::string op_ver(const Toks &t) {
+    (void)t;
+    int v = ascon_suite_version();
+    return v > 0 ? "version-positive" : "version-nonpositive " + std::to_string(v);
+}
+static Reg r_ver("VER", op_ver);
